@@ -204,6 +204,7 @@ fn build_inputs(tier: &str, r: &mut Rng) -> Vec<Input> {
 }
 
 pub fn generate(tier: &str, r: &mut Rng, emit: &mut dyn FnMut(Case)) {
+    if std::env::var("C08_WITNESS").is_ok() { witness_search(r); return }
     let inputs = build_inputs(tier, r);
     let t0 = std::time::Instant::now();
     let jobs: Vec<(String, Args)> = inputs.iter().map(|i| ("c08.outcome".to_string(), in_args(i))).collect();
